@@ -10,7 +10,7 @@
    byte-exact generator correspondence and judged on the reference machine. *)
 From Coq Require Import ZArith List String Bool.
 From Gigue Require Import Types Bits Isa Enc GenTables Builder BuilderTies Samplers Generator Machine MachineLemmas
-  SplitProofs FragProofs GenLemmas ImageSem CtorSpec C12Defs C12Proofs.
+  SplitProofs FragProofs GenLemmas ImageSem CtorSpec C12Defs C12Proofs GenWF GenWFProps Witness.
 Import ListNotations.
 Open Scope Z_scope.
 
@@ -27,6 +27,14 @@ Definition C02_registers_restored_statement : Prop :=
   forall bound L s0, Init c img bound L s0 ->
   forall n s1, run (variant_of (c_variant c)) L n s0 = (Halt s1, n) ->
   Forall (fun r => rget s1 r = rget s0 r) (callee_saved_and_reserved c).
+
+(* PROVED (Layer A) for every accepted configuration, decision script and
+   emitted image: no instruction of any method has the data-base register as
+   its destination (so the register holds its entry value throughout). *)
+Theorem C02_data_reg_never_written : forall c script img, successful c script img ->
+  Forall (fun m => Forall (fun g => mem_discipline c g = true /\ negb (dest_of g =? c_data_reg c) = true)
+                          (m_instrs m)) (im_methods img).
+Proof. exact methods_access_discipline. Qed.
 
 (* every prologue / epilogue pair of the five variants (leaf, call-making and
    interpreter): one allocation, one release, equal amounts; the same
@@ -73,6 +81,7 @@ Theorem C02_call_stub_frame_partial : forall v L s A off,
     (forall r, 0 <= r -> r <> 1 -> rget s' r = rget s r).
 Proof. exact method_base_call_reaches. Qed.
 
+Print Assumptions C02_data_reg_never_written.
 Print Assumptions C02_frames_symmetric_partial.
 Print Assumptions C02_trampoline_frames_partial.
 Print Assumptions C02_reserved_registers_filtered_partial.
